@@ -221,8 +221,8 @@ func instructionSplit(b []byte) (string, []byte, error) {
 	if bSz <= int(sz) {
 		return "", nil, fmt.Errorf("corrupt instruction, len %v less than symbol length: %v", bSz, sz)
 	}
-	r := string(b[1 : 1+sz])
-	return r, b[1+sz:], nil
+	r := string(b[1 : 1+int(sz)])
+	return r, b[1+int(sz):], nil
 }
 
 // split bytecode into head and b using opcode
